@@ -116,7 +116,7 @@ package leader
 //@ lockinv kvElection.mu C18.claim_iff_state:        isLeader == (state == "LEADER")
 //@ lockinv kvElection.mu C02.claim_implies_running:  isLeader ==> (ctx != nil && !stopped)
 //@ lockinv kvElection.mu C18.stopped_implies_state:  stopped ==> state == "STOPPED"
-//@ lockinv kvElection.mu C09.cancel_set_with_ctx:    ctx != nil ==> cancel != nil
+//@ lockinv kvElection.mu C09+C19.cancel_set_with_ctx:    ctx != nil ==> cancel != nil
 
 // Hooks that apply in every function: whoever stores the claim refreshes the
 // gauge before releasing the mutex; whoever reports a transition reports the
@@ -163,7 +163,7 @@ package leader
 //@ iface KeyValue.Delete(key)
 //@   requires C01.key_is_group: key == e.key
 //@   requires C01+C02.delete_only_by_stopping_leader: caller.mayDelete
-//@   requires C01.delete_after_claim_cleared: $claimCleared
+//@   requires C01+C02.delete_after_claim_cleared: $claimCleared
 //@   requires C01.delete_by_current_owner: OwnsRecordNow(e)
 
 //@ iface KeyValue.Watch(key, opts)
@@ -422,6 +422,9 @@ package leader
 //@   on call becomeFollower assert C07.rounds_never_demote: false
 //@   ghost bfCalled Bool = false
 //@   on call settleAsFollower set bfCalled = true
+//@   ghost sawCancel Bool = false
+//@   on recv ctx.Done set sawCancel = true
+//@   on return assert C06.round_attempts_unless_cancelled: !sawCancel ==> attempts >= 1
 //@   on return assert C06.exhausted_round_returns_to_follower: attempts == 4 && lastErrNonNil ==> bfCalled
 //@   loop 0 invariant C17.round_shape: 0 <= $v && $v <= 3 && attempts == $v && jitterWaited && jitterArmed && (attempts == 0 || waitedSince) && !bfCalled && (attempts > 0 ==> lastErrNonNil)
 
@@ -442,10 +445,11 @@ package leader
 //@   ghost tkEntry Int = 0
 //@   on ret KeyValue.Get as g when g.result1 == nil set tkEntry = g.result0
 //@   on call KeyValue.Update as c assert C10.update_carries_own_payload: c.value == payloadBytes
+//@   ensures C10.refuses_only_equal_or_higher: tkEntry != 0 && ParseOK(EntryVal(tkEntry)) && e.cfg.Priority > PrioOf(EntryVal(tkEntry)) ==> calls(KeyValue.Update) == 1
 
 //@ func (e *kvElection) becomeLeader(token, rev)
 //@   tags C02 C05 C08 C18 C19 C09
-//@   requires C02.claim_backed_by_own_write: Own(rev) && rev != 0 && PubTok(rev) == token && PubID(rev) == e.cfg.InstanceID && OwnTok(token)
+//@   requires C02+C05.claim_backed_by_own_write: Own(rev) && rev != 0 && PubTok(rev) == token && PubID(rev) == e.cfg.InstanceID && OwnTok(token)
 //@   ghost inBecomeLeader Bool = true
 //@   ghost wasLeaderAtLock Bool = false
 //@   ghost promoteSet Bool = false
@@ -458,6 +462,7 @@ package leader
 //@   on store kvElection.revision as s assert C01.token_before_revision: tokStored && s.value == rev
 //@   on store kvElection.revision set e.revSet = true
 //@   on call onPromote as c assert C05.promote_gets_published_token: c.arg1 == token
+//@   on load kvElection.ctx assert C19+C09.election_ctx_read_under_lock: held(e.mu) >= 1
 //@   on call onPromote as c assert C19.derived_from_election_ctx: origin(c.arg0, "ctx:derived") && origin(ctxof(c.arg0), "field:kvElection.ctx")
 //@   on call ctxcancel assert C19.not_cancelled_early: calls(onPromote) == 1
 //@   on call onPromote assert C08.promote_once_per_activation: calls(onPromote) == 1
@@ -480,7 +485,7 @@ package leader
 
 //@ func (e *kvElection) demote(unlessLeader)
 //@   tags C03 C07 C08 C18 C19 C06
-//@   requires C07.no_demotion_without_cause: unlessLeader || caller.demote_cause
+//@   requires C07+C10.no_demotion_without_cause: unlessLeader || caller.demote_cause
 //@   ghost out cleared Bool = false
 //@   ghost termCancelled Bool = false
 //@   ghost watcherSeen Bool = false
@@ -545,6 +550,9 @@ package leader
 //@   on call cancel set e.stopped = true
 //@   on unlock kvElection.mu when firstUnlock assert C19+C09.stop_cancels_before_release: ctxNilL || calls(cancel) == 1
 //@   on unlock kvElection.mu set firstUnlock = false
+//@   ghost drained Bool = false
+//@   on recv local set drained = true
+//@   on store kvElection.ctx as s when s.value == nil assert C09.context_cleared_only_after_drain: drained
 //@   on call KeyValue.Delete assert C19+C09.delete_after_cancel: calls(cancel) == 1
 //@   on load kvElection.onDemote as l when l.value == nil set demoteNilSeen = true
 //@   on call KeyValue.Delete set mayDelete = opts.DeleteKey && wasLeaderL
@@ -832,6 +840,7 @@ package leader
 //@   ensures C06.vacancy_triggers_acquire: got && (getErr != nil || getEnt == nil || LenOf(EntryVal(getEnt)) == 0) ==> spawns(attemptAcquireWithRetry) == 1
 //@   ensures C13.no_acquire_on_live_record: got && getErr == nil && getEnt != nil && LenOf(EntryVal(getEnt)) != 0 ==> spawns(attemptAcquireWithRetry) == 0
 //@   ensures C06.leader_skips: !got ==> spawns(attemptAcquireWithRetry) == 0
+//@   ensures C06.periodic_check_skipped_only_by_leader: !got ==> sawLeader
 
 //@ func (e *kvElection) handleWatchEvent(entry)
 //@   tags C06 C07 C08 C10 C13 C18
